@@ -44,7 +44,14 @@ impl<'a> Attributes<'a> {
         let mut src = self.0;
 
         iter::from_fn(move || {
-            field::next(&mut src).map(|result| result.map(|(t, v)| field::parse(t, v)))
+            let result = field::next(&mut src)?;
+
+            // A field that fails to parse does not advance the source: end the iteration.
+            if result.is_err() {
+                src = &[];
+            }
+
+            Some(result.map(|(t, v)| field::parse(t, v)))
         })
     }
 }
